@@ -35,6 +35,11 @@ differs only by local, behaviour-preserving refactoring idioms:
       stored to anywhere in the package) read as self.NAME / cls.NAME /
       Class.NAME in an iteration position is replaced by its literal;
       any(E for x in <literal>) / all(...) become an or / and chain
+  T16 x = min(x, L) -> if x > L: x = L ;  x = max(x, L) -> if x < L: x = L
+  T17 fields cached in locals over a region
+        v = X.a ; w = X.b ; <region: no access to X.a / X.b, no call on or
+        with X> ; X.a, X.b = v, w
+      become the region with X.a / X.b for v / w (v, w not used afterwards)
   T12 an if whose test consists of constants is replaced by the branch taken
   T7  `True if c else False` / `if c: return True; return False`
         with c a comparison              ->  c
@@ -551,6 +556,8 @@ class Canon:
                     h.body = self.block(h.body)
         stmts = self._unroll(stmts)
         stmts = self._uncache(stmts)
+        stmts = self._uncache_region(stmts)
+        stmts = self._minmax(stmts)
         # empty branches left behind by dropped statements
         cleaned = []
         if len(stmts) > 1 and any(isinstance(x, ast.Pass) for x in stmts):
@@ -865,6 +872,132 @@ class Canon:
             out.extend(unrolled)
             self.did("T11.unroll")
         return out
+
+    def _minmax(self, stmts):
+        out = []
+        for s in stmts:
+            if isinstance(s, ast.Assign) and len(s.targets) == 1 and \
+                    isinstance(s.targets[0], (ast.Name, ast.Attribute)) and \
+                    isinstance(s.value, ast.Call) and isinstance(
+                        s.value.func, ast.Name) and s.value.func.id in (
+                            "min", "max") and len(s.value.args) == 2 and \
+                    not s.value.keywords:
+                t = ast.dump(_as_load(s.targets[0]))
+                a, b = s.value.args
+                other = None
+                if ast.dump(a) == t:
+                    other = b
+                elif ast.dump(b) == t:
+                    other = a
+                if other is not None and not _pure_operand(other):
+                    # evaluate the other operand once, into a temporary
+                    self._tmp = getattr(self, "_tmp", 0) + 1
+                    nm = "limit__%d" % self._tmp
+                    out.append(ast.copy_location(ast.Assign(
+                        targets=[ast.Name(id=nm, ctx=ast.Store())],
+                        value=other), s))
+                    other = ast.Name(id=nm, ctx=ast.Load())
+                if other is not None:
+                    op = ast.Gt() if s.value.func.id == "min" else ast.Lt()
+                    out.append(ast.copy_location(ast.If(
+                        test=ast.Compare(left=_as_load(s.targets[0]),
+                                         ops=[op], comparators=[other]),
+                        body=[ast.copy_location(ast.Assign(
+                            targets=[s.targets[0]],
+                            value=copy.deepcopy(other)), s)],
+                        orelse=[]), s))
+                    self.did("T16.minmax")
+                    continue
+            out.append(s)
+        return out
+
+    def _uncache_region(self, stmts):
+        """T17"""
+        for j, s in enumerate(stmts):
+            # the write-back statement
+            if not isinstance(s, ast.Assign) or len(s.targets) != 1:
+                continue
+            t = s.targets[0]
+            if isinstance(t, ast.Attribute) and isinstance(s.value, ast.Name):
+                pairs = [(t, s.value)]
+            elif isinstance(t, ast.Tuple) and isinstance(
+                    s.value, ast.Tuple) and len(t.elts) == len(
+                        s.value.elts) and all(
+                            isinstance(a, ast.Attribute) and
+                            isinstance(b, ast.Name)
+                            for a, b in zip(t.elts, s.value.elts)):
+                pairs = list(zip(t.elts, s.value.elts))
+            else:
+                continue
+            if not all(isinstance(a.value, ast.Name) for a, _ in pairs):
+                continue
+            # the loads, earlier in the same block
+            starts = {}
+            for a, b in pairs:
+                for i in range(j - 1, -1, -1):
+                    si = stmts[i]
+                    if isinstance(si, ast.Assign) and len(
+                            si.targets) == 1 and isinstance(
+                                si.targets[0], ast.Name) and \
+                            si.targets[0].id == b.id and ast.dump(
+                                si.value) == ast.dump(_as_load(a)):
+                        starts[b.id] = i
+                        break
+            if len(starts) != len(pairs):
+                continue
+            first = min(starts.values())
+            load_idx = set(starts.values())
+            region = [st for k, st in enumerate(stmts[first:j], first)
+                      if k not in load_idx]
+            names = {b.id for _, b in pairs}
+            roots = {a.value.id for a, _ in pairs}
+            attrs = {a.attr for a, _ in pairs}
+            ok = not (names & self.usage.banned)
+            # statements between the first load and the other loads must
+            # not touch the cached names either: they are in `region`
+            for st in region:
+                for n in ast.walk(st):
+                    if isinstance(n, ast.Attribute) and n.attr in attrs and \
+                            isinstance(n.value, ast.Name) and \
+                            n.value.id in roots:
+                        ok = False
+                    if isinstance(n, ast.Call):
+                        recv = n.func
+                        while isinstance(recv, ast.Attribute):
+                            recv = recv.value
+                        if isinstance(recv, ast.Name) and recv.id in roots \
+                                and isinstance(n.func, ast.Attribute):
+                            ok = False
+                        for a_ in list(n.args) + [k.value
+                                                  for k in n.keywords]:
+                            if isinstance(a_, ast.Name) and a_.id in roots:
+                                ok = False
+                    if isinstance(n, ast.Name) and n.id in roots and \
+                            isinstance(n.ctx, ast.Store):
+                        ok = False
+            # cached names not read after the write-back, and only stored
+            # inside the region / the loads
+            for later in stmts[j + 1:]:
+                for n in ast.walk(later):
+                    if isinstance(n, ast.Name) and n.id in names and \
+                            isinstance(n.ctx, ast.Load):
+                        ok = False
+            if not ok:
+                continue
+            mapping = {b.id: a for a, b in pairs}
+
+            class _R(ast.NodeTransformer):
+                def visit_Name(self_, node):
+                    if node.id in mapping:
+                        new = copy.deepcopy(mapping[node.id])
+                        new.ctx = node.ctx.__class__()
+                        return ast.copy_location(new, node)
+                    return node
+            new_region = [_R().visit(st) for st in region]
+            self.did("T17.uncache-region")
+            return self._uncache_region(
+                stmts[:first] + new_region + stmts[j + 1:])
+        return stmts
 
     def _uncache(self, stmts):
         out = []
